@@ -29,11 +29,11 @@ BUDGET = 4000            # traced lines of /repo code per call; legitimate cost 
 DFLT = "dflt"
 
 # the look-ups of these ops go through Mapping views (iteration + __getitem__): one op class for signatures
-OPCLASS = {"look2": "lookup", "set": "store", "update": "store", "update2": "store", "get": "lookup", "getd": "lookup",
+OPCLASS = {"look2": "lookup", "iterlook": "view", "iternest": "view", "set": "store", "update": "store", "update2": "store", "get": "lookup", "getd": "lookup",
            "del": "remove", "pop": "remove", "popd": "remove",
            "values": "values|items|==", "items": "values|items|==", "eq_dict": "values|items|==",
            "eq_cache": "values|items|=="}
-PURE = ("len", "iter", "keys")
+PURE = ("len", "iter", "keys", "iternest")
 VIEWS = ("values", "items", "eq_dict", "eq_cache")
 
 
@@ -61,6 +61,7 @@ class CacheSpec(Spec):
     cls = None
     cls_name = "?"
     import_line = ""
+    iterlook_views = ("iter", "keys")
 
     def __init__(self, capacity, inits=("empty",)):
         self.capacity = capacity
@@ -132,6 +133,11 @@ class CacheSpec(Spec):
         # two look-ups / membership tests back to back, with no observation in between: state that one of them
         # leaves behind (a memo, a "same head as last time" test) must not survive into the next observation
         ops += [("look2", a, k1, b, k2) for a, b in (("get", "get"), ("in", "get")) for k1 in K for k2 in K if k1 != k2]
+        # an iteration / view that is still open while look-ups (uses!) of one key go on: must end, look-ups unaffected
+        if len(content) >= 2:
+            ops += [("iterlook", view, k) for view in self.iterlook_views for k in [x for x in K if x in content] + ["*"]]
+            # ... and while a second, complete iteration runs between any two of its steps (nothing is used: exact)
+            ops += [("iternest", view) for view in ("iter", "keys")]
         variants = ["same", "extra"] + (["value", "missing"] if content else [])
         ops += [("eq_dict", x) for x in variants]
         ops += [("eq_cache", x) for x in variants]
@@ -217,6 +223,47 @@ class CacheSpec(Spec):
             f1, e1 = self._apply(c, (op[1], op[2]), content)
             f2, e2 = self._apply(c, (op[3], op[4]), content)
             return (lambda: (observe(f1), observe(f2))), ("ok", (e1, e2))
+        if kind == "iterlook":
+            view, k = op[1], op[2]
+            self.code("it = iter(%s)" % ("c" if view == "iter" else "c.%s()" % view))
+            if k == "*":
+                self.code("while True: next(it); [c[x] for x in list(c)]        # until StopIteration")
+            else:
+                self.code("while True: next(it); c[%r]; list(c)        # until StopIteration" % (k,))
+            cap = 4 * self.capacity + 8
+
+            def run():
+                it = iter(c if view == "iter" else getattr(c, view)())
+                yields, looks = [], []
+                while len(yields) < cap:
+                    try:
+                        yields.append(next(it))
+                    except StopIteration:
+                        return ("ended", yields, looks)
+                    except RuntimeError:
+                        return ("refused", yields, looks)        # "changed during iteration": a legitimate answer
+                    for x in (list(c) if k == "*" else [k]):
+                        looks.append((x, observe(partial(c.__getitem__, x))))
+                    list(c)
+                return ("runaway", yields, looks)
+            return run, None
+        if kind == "iternest":
+            view = op[1]
+            self.code("it = iter(%s)" % ("c" if view == "iter" else "c.keys()"))
+            self.code("while True: next(it); list(c)        # until StopIteration")
+            cap = 4 * self.capacity + 8
+
+            def run():
+                it = iter(c if view == "iter" else c.keys())
+                out = []
+                while len(out) < cap:
+                    try:
+                        out.append(next(it))
+                    except StopIteration:
+                        return out
+                    list(c)
+                return out + ["..."]
+            return run, None
         if kind == "len":
             self.code("len(c)")
             return partial(len, c), ("ok", len(content))
@@ -287,8 +334,22 @@ class CacheSpec(Spec):
                 if got[0] == "ok" and exp[0] == "ok" and kind in ("get", "getd", "pop", "popd", "setdefault"):
                     k = "stale-value"
                 raise self.mm(k, "%s -> %r, reference %r (content %r)" % (self.line(op), got, exp, content))
-        elif kind in ("iter", "keys"):
+        elif kind in ("iter", "keys", "iternest"):
             pass      # compared with the pure observation below
+        elif kind == "iterlook":
+            if got[0] != "ok":
+                raise self.mm("raises", "%s -> %r (content %r)" % (self.line(op), got, content))
+            status, yields, looks = got[1]
+            if status == "runaway":
+                raise self.mm("diverges", "%s: the iteration is still yielding after %d items %r (cache of %d entries %r)" % (
+                    self.line(op), len(yields), yields[:8], len(content), content))
+            bad = [(x, r) for x, r in looks if r != (("ok", content[x]) if x in content else ("exc", "KeyError"))]
+            if bad:
+                raise self.mm("stale-value", "%s: look-ups returned %r, content %r" % (self.line(op), bad[:3], content))
+            if status == "ended" and sorted(yields) != sorted(content):
+                # only look-ups went on, no key came or went: whatever the order, every key is listed, once
+                raise self.mm("iteration-interleaved", "%s listed %r; the cache held the keys %r all the time" % (
+                    self.line(op), yields, sorted(content)))
         elif kind == "values":
             self.view(op, got, sorted(content.values()), content)
         elif kind == "items":
@@ -306,6 +367,11 @@ class CacheSpec(Spec):
             if kind == "look2":
                 for s1 in self.successors(s, (op[1], op[2]), got[1][0]):
                     cands.update(self.successors(s1, (op[3], op[4]), got[1][1]))
+            elif kind == "iterlook":
+                cur_ = {s}
+                for x, r in got[1][2]:
+                    cur_ = {s2 for s1 in cur_ for s2 in self.successors(s1, ("get", x), r)}
+                cands.update(cur_)
             else:
                 cands.update(self.successors(s, op, got))
         if order[0] != "ok":
@@ -329,7 +395,7 @@ class CacheSpec(Spec):
         if not model2:
             raise self.mm("order", "after %s list(c) == %r, which no reference state allows: %s" % (
                 self.line(op), order, self.describe(frozenset(cands))))
-        if kind in ("iter", "keys") and got != ("ok", order):
+        if kind in ("iter", "keys", "iternest") and got != ("ok", order):
             raise self.mm("returns", "%s -> %r but list(c) == %r" % (self.line(op), got, order))
         c2 = self.content(next(iter(model2)))
         self.last = {"op": op, "order": order,
@@ -358,7 +424,9 @@ class CacheSpec(Spec):
              "getd": "c.get(%r)", "pop": "c.pop(%r)", "popd": "c.pop(%r, 'dflt')", "popitem": "c.popitem()",
              "clear": "c.clear()", "update": "c.update({%r: %r})", "update2": "c.update({%r: 'a', %r: 'b'})",
              "setdefault": "c.setdefault(%r, %r)", "eq_dict": "c == <dict: %s>", "eq_cache": "c == <cache: %s>",
-             "look2": "%s %r; %s %r (no observation in between)"}[kind]
+             "look2": "%s %r; %s %r (no observation in between)",
+             "iterlook": "it = iter(c) [%s]; next(it), look-up of %r (*: every key) and list(c) alternately until it ends",
+             "iternest": "it = iter(c) [%s]; next(it), list(c) alternately until it ends"}[kind]
         return t % tuple(op[1:]) if len(op) > 1 else t
 
     def describe(self, model):
